@@ -53,6 +53,10 @@ Complete     == pc = "done" => /\ rows = Iota(count)
                                /\ txs = (count \div P) + 1
 Terminates   == <>(pc = "done")
 SmallEmpty == Empty \subseteq 1..3    \* model bound only: empty geometries among the first three features
+(* the counting skeleton (PagingInt.tla), whose inductive invariant Apalache proves for every page size and count *)
+PI == INSTANCE PagingInt WITH nrows <- Len(rows), buf <- Len(buffer)
+RefinesInt == PI!Spec
+IntInvHolds == PI!IndInv
 (* the committed row count after k features have been fully processed *)
 Committed(k, p) == p * (k \div p)
 CommittedOK == pc = "recv" => Len(rows) = Committed(sent, P)
